@@ -191,6 +191,426 @@ theorem dispatch_badact {q : Party} {s0 : Sent} {l : Nat} {msg : Msg}
     dispatch H T q s0 l msg = ⟨q, s0 ++ [], .idle⟩ := by
   unfold dispatch
   simp only []
-  split_ifs <;> rfl
+  by_cases h1 : msg.sender > ((q.n : Int) - 1) ∨ msg.sender < 0
+  · rw [if_pos h1]
+  · rw [if_neg h1]
+    by_cases h2 : msg.seq < 1
+    · rw [if_pos h2]
+    · rw [if_neg h2, if_pos ha]
+
+/-- the party on which an accepted, decided l-deliver runs deliver-or-buffer -/
+def ldelDec (q : Party) (l : Nat) (msg : Msg) (i : Nat) : Party :=
+  { ldelPost q l msg with mbar := aSet q.mbar msg.tag ((ldelBuf q l msg).getD i 0) }
+
+theorem dispatch_ldeliver_eq {q : Party} {s0 : Sent} {l : Nat} {msg : Msg} (wf : WF q msg)
+    (ha : msg.action = lDeliver) :
+    dispatch H T q s0 l msg =
+      if fHas q.deliver l msg.tag then ⟨q, s0 ++ [], .idle⟩
+      else if !fHas q.retrieve l msg.tag then ⟨q, s0 ++ [], .idle⟩
+      else if deliverNum (ldelPost q l msg) msg.tag < q.n - q.t then
+        ⟨ldelPost q l msg, s0 ++ [], .idle⟩
+      else match agreeFind (ldelPost q l msg) msg.tag (ldelBuf q l msg) (List.range q.n) with
+        | none => ⟨ldelPost q l msg, s0 ++ [], .idle⟩
+        | some i =>
+          let r := deliverOrBuffer (ldelDec q l msg i) msg []
+          { r with sent := s0 ++ r.sent } := by
+  have hne : ∀ a : Int, a ≠ lDeliver → msg.action ≠ a := by
+    intro a h1 h2; exact h1 (h2.symm.trans ha)
+  obtain ⟨h1, h2⟩ := wf_checks wf
+  have h3 : ¬(msg.action < rSend ∨ msg.action > lDeliver) := by rw [ha]; decide
+  unfold dispatch
+  simp only []
+  rw [if_neg h1, if_neg h2, if_neg h3, if_neg (hne rSend (by decide)), if_neg (hne rEcho (by decide)),
+    if_neg (hne rReady (by decide)), if_neg (hne rRequest (by decide)),
+    if_neg (hne rAnswer (by decide)), if_neg (hne lRetrieve (by decide)), if_pos ha]
+  by_cases hf : fHas q.deliver l msg.tag = true
+  · simp [hf]
+  · have hf0 : fHas q.deliver l msg.tag = false := by simpa using hf
+    simp only [hf0, Bool.not_false, if_true, Bool.false_eq_true, if_false]
+    rfl
+
+/-! ### a complete relational description of `dispatch` (every branch explicit) -/
+
+/-- the r-ready amplification condition -/
+def Amp (q : Party) (msg : Msg) : Prop :=
+  q.t > 0 ∧ cnt q.rD (msg.tag, msg.payload) + 1 = q.t + 1 ∧ cnt q.eD (msg.tag, msg.payload) < q.n - q.t
+
+instance (q : Party) (msg : Msg) : Decidable (Amp q msg) := by unfold Amp; infer_instance
+
+/-- the echo-quorum condition -/
+def EchoQ (q : Party) (msg : Msg) : Prop :=
+  cnt q.eD (msg.tag, msg.payload) + 1 = q.n - q.t ∧ cnt q.rD (msg.tag, msg.payload) ≤ q.t
+
+instance (q : Party) (msg : Msg) : Decidable (EchoQ q msg) := by unfold EchoQ; infer_instance
+
+def mkMsg (msg : Msg) (a x : Int) : Msg := ⟨msg.id, msg.sender, msg.seq, a, x⟩
+
+def reqList (q : Party) (msg : Msg) : Sent :=
+  (List.range (2 * q.t + 1)).map fun i => (i, mkMsg msg rRequest msg.payload)
+
+/-- the filter entry of a consumed message is set -/
+def Flagged (q' : Party) (l : Nat) (msg : Msg) : Prop :=
+  (msg.action = rSend → fHas q'.send l msg.tag = true) ∧
+  (msg.action = rEcho → fHas q'.echo l msg.tag = true) ∧
+  (msg.action = rReady → fHas q'.ready l msg.tag = true) ∧
+  (msg.action = rRequest → fHas q'.request l msg.tag = true) ∧
+  (msg.action = rAnswer → fHas q'.answer l msg.tag = true)
+
+theorem act_ne {msg : Msg} {a b : Int} (hab : a ≠ b) (h1 : msg.action = a) : msg.action ≠ b :=
+  fun h2 => hab (h1.symm.trans h2)
+
+theorem Flagged.ofSend {q' : Party} {l : Nat} {msg : Msg} (ha : msg.action = rSend)
+    (h : fHas q'.send l msg.tag = true) : Flagged q' l msg :=
+  ⟨fun _ => h, fun h' => absurd h' (act_ne (by decide) ha), fun h' => absurd h' (act_ne (by decide) ha),
+   fun h' => absurd h' (act_ne (by decide) ha), fun h' => absurd h' (act_ne (by decide) ha)⟩
+
+theorem Flagged.ofEcho {q' : Party} {l : Nat} {msg : Msg} (ha : msg.action = rEcho)
+    (h : fHas q'.echo l msg.tag = true) : Flagged q' l msg :=
+  ⟨fun h' => absurd h' (act_ne (by decide) ha), fun _ => h, fun h' => absurd h' (act_ne (by decide) ha),
+   fun h' => absurd h' (act_ne (by decide) ha), fun h' => absurd h' (act_ne (by decide) ha)⟩
+
+theorem Flagged.ofReady {q' : Party} {l : Nat} {msg : Msg} (ha : msg.action = rReady)
+    (h : fHas q'.ready l msg.tag = true) : Flagged q' l msg :=
+  ⟨fun h' => absurd h' (act_ne (by decide) ha), fun h' => absurd h' (act_ne (by decide) ha), fun _ => h,
+   fun h' => absurd h' (act_ne (by decide) ha), fun h' => absurd h' (act_ne (by decide) ha)⟩
+
+theorem Flagged.ofRequest {q' : Party} {l : Nat} {msg : Msg} (ha : msg.action = rRequest)
+    (h : fHas q'.request l msg.tag = true) : Flagged q' l msg :=
+  ⟨fun h' => absurd h' (act_ne (by decide) ha), fun h' => absurd h' (act_ne (by decide) ha),
+   fun h' => absurd h' (act_ne (by decide) ha), fun _ => h, fun h' => absurd h' (act_ne (by decide) ha)⟩
+
+theorem Flagged.ofAnswer {q' : Party} {l : Nat} {msg : Msg} (ha : msg.action = rAnswer)
+    (h : fHas q'.answer l msg.tag = true) : Flagged q' l msg :=
+  ⟨fun h' => absurd h' (act_ne (by decide) ha), fun h' => absurd h' (act_ne (by decide) ha),
+   fun h' => absurd h' (act_ne (by decide) ha), fun h' => absurd h' (act_ne (by decide) ha), fun _ => h⟩
+
+theorem Flagged.ofOther {q' : Party} {l : Nat} {msg : Msg}
+    (ha : (msg.action < rSend ∨ msg.action > lDeliver) ∨ msg.action = lRetrieve ∨ msg.action = lDeliver) :
+    Flagged q' l msg := by
+  unfold Flagged
+  simp only [rSend, rEcho, rReady, rRequest, rAnswer, lRetrieve, lDeliver] at *
+  refine ⟨?_, ?_, ?_, ?_, ?_⟩ <;> intro h <;> omega
+
+inductive DispL (H : Int → Int) (T : Tag → Int) (q : Party) (l : Nat) (msg : Msg) :
+    Party → Sent → Outcome → Prop
+  | drop (hfl : WF q msg → Flagged q l msg) : DispL H T q l msg q [] .idle
+  | markSend (wf : WF q msg) (hact : msg.action = rSend) (hnew : fHas q.send l msg.tag = false)
+      (hbad : msg.sender ≠ (l : Int) ∨ ∃ mb, aGet q.mbar msg.tag = some mb ∧ mb ≠ msg.payload) :
+      DispL H T q l msg { q with send := fIns q.send l msg.tag } [] .idle
+  | echoNew (wf : WF q msg) (hact : msg.action = rSend) (hnew : fHas q.send l msg.tag = false)
+      (hl : msg.sender = (l : Int)) (hm : aGet q.mbar msg.tag = none) :
+      DispL H T q l msg
+        { q with send := fIns q.send l msg.tag, mbar := aSet q.mbar msg.tag msg.payload }
+        (sendAll q.n (mkMsg msg rEcho (H msg.payload))) .idle
+  | echoOld (wf : WF q msg) (hact : msg.action = rSend) (hnew : fHas q.send l msg.tag = false)
+      (hl : msg.sender = (l : Int)) (hm : aGet q.mbar msg.tag = some msg.payload) :
+      DispL H T q l msg { q with send := fIns q.send l msg.tag }
+        (sendAll q.n (mkMsg msg rEcho (H msg.payload))) .idle
+  | markEcho (wf : WF q msg) (hact : msg.action = rEcho) (hnew : fHas q.echo l msg.tag = false)
+      (hlen : ¬ LenOk T msg.tag msg.payload) :
+      DispL H T q l msg { q with echo := fIns q.echo l msg.tag } [] .idle
+  | echoCount (wf : WF q msg) (hact : msg.action = rEcho) (hnew : fHas q.echo l msg.tag = false)
+      (hlen : LenOk T msg.tag msg.payload) :
+      DispL H T q l msg (echoPost q l msg)
+        (if EchoQ q msg then sendAll q.n (mkMsg msg rReady msg.payload) else []) .idle
+  | markReady (wf : WF q msg) (hact : msg.action = rReady) (hnew : fHas q.ready l msg.tag = false)
+      (hlen : ¬ LenOk T msg.tag msg.payload) :
+      DispL H T q l msg { q with ready := fIns q.ready l msg.tag } [] .idle
+  | readyCount (wf : WF q msg) (hact : msg.action = rReady) (hnew : fHas q.ready l msg.tag = false)
+      (hlen : LenOk T msg.tag msg.payload)
+      (hno : Amp q msg ∨ cnt q.rD (msg.tag, msg.payload) + 1 ≠ 2 * q.t + 1 ∨
+        ∃ db, aGet q.dbar msg.tag = some db ∧ db ≠ msg.payload) :
+      DispL H T q l msg (readyPost q l msg)
+        (if Amp q msg then sendAll q.n (mkMsg msg rReady msg.payload) else []) .idle
+  | readyReq (wf : WF q msg) (hact : msg.action = rReady) (hnew : fHas q.ready l msg.tag = false)
+      (hlen : LenOk T msg.tag msg.payload) (hamp : ¬ Amp q msg)
+      (hr : cnt q.rD (msg.tag, msg.payload) + 1 = 2 * q.t + 1) (p3 : Party)
+      (hd : (aGet q.dbar msg.tag = none ∧
+              p3 = { readyPost q l msg with dbar := aSet q.dbar msg.tag msg.payload }) ∨
+            (aGet q.dbar msg.tag = some msg.payload ∧ p3 = readyPost q l msg))
+      (hfoo : (aGet q.mbar msg.tag = none ∧ msg.payload ≠ 0) ∨
+              (∃ mb, aGet q.mbar msg.tag = some mb ∧ H mb ≠ msg.payload)) :
+      DispL H T q l msg
+        { p3 with awaited := if q.awaited.contains msg.tag then q.awaited
+                             else msg.tag :: q.awaited } (reqList q msg) .idle
+  | readyDeliver (wf : WF q msg) (hact : msg.action = rReady) (hnew : fHas q.ready l msg.tag = false)
+      (hlen : LenOk T msg.tag msg.payload) (hamp : ¬ Amp q msg)
+      (hr : cnt q.rD (msg.tag, msg.payload) + 1 = 2 * q.t + 1) (p3 : Party)
+      (hd : (aGet q.dbar msg.tag = none ∧
+              p3 = { readyPost q l msg with dbar := aSet q.dbar msg.tag msg.payload }) ∨
+            (aGet q.dbar msg.tag = some msg.payload ∧ p3 = readyPost q l msg))
+      (hfoo : (aGet q.mbar msg.tag = none ∧ msg.payload = 0) ∨
+              (∃ mb, aGet q.mbar msg.tag = some mb ∧ H mb = msg.payload)) :
+      DispL H T q l msg (deliverOrBuffer p3 msg []).party (deliverOrBuffer p3 msg []).sent
+        (deliverOrBuffer p3 msg []).out
+  | reqAnswer (wf : WF q msg) (hact : msg.action = rRequest)
+      (hnew : fHas q.request l msg.tag = false) (mb : Int) (hm : aGet q.mbar msg.tag = some mb) :
+      DispL H T q l msg { q with request := fIns q.request l msg.tag }
+        [(l, mkMsg msg rAnswer mb)] .idle
+  | markReq (wf : WF q msg) (hact : msg.action = rRequest)
+      (hnew : fHas q.request l msg.tag = false) (hm : aGet q.mbar msg.tag = none) :
+      DispL H T q l msg { q with request := fIns q.request l msg.tag } [] .idle
+  | markAns (wf : WF q msg) (hact : msg.action = rAnswer)
+      (hnew : fHas q.answer l msg.tag = false)
+      (hbad : aGet q.dbar msg.tag = none ∨ q.awaited.contains msg.tag = false ∨
+        ∃ db, aGet q.dbar msg.tag = some db ∧ H msg.payload ≠ db) :
+      DispL H T q l msg { q with answer := fIns q.answer l msg.tag } [] .idle
+  | answerDeliver (wf : WF q msg) (hact : msg.action = rAnswer)
+      (hnew : fHas q.answer l msg.tag = false) (db : Int) (hd : aGet q.dbar msg.tag = some db)
+      (haw : q.awaited.contains msg.tag = true) (hh : H msg.payload = db) :
+      DispL H T q l msg (deliverOrBuffer (answerPost q l msg) msg []).party
+        (deliverOrBuffer (answerPost q l msg) msg []).sent
+        (deliverOrBuffer (answerPost q l msg) msg []).out
+  | retrieve (wf : WF q msg) (hact : msg.action = lRetrieve) (x : Msg)
+      (hx : x.action = lFail ∨ ∃ mb, x = mkMsg msg lDeliver mb ∧ aGet q.mbar msg.tag = some mb ∧
+        ((q.fifo = true ∧ msg.seq < q.dS msg.sender.toNat) ∨ q.fifo = false)) :
+      DispL H T q l msg q [(l, x)] .idle
+  | ldelMark (wf : WF q msg) (hact : msg.action = lDeliver)
+      (hnew : fHas q.deliver l msg.tag = false) (hretr : fHas q.retrieve l msg.tag = true) :
+      DispL H T q l msg (ldelPost q l msg) [] .idle
+  | ldelDeliver (wf : WF q msg) (hact : msg.action = lDeliver)
+      (hnew : fHas q.deliver l msg.tag = false) (hretr : fHas q.retrieve l msg.tag = true)
+      (i : Nat) (hi : agreeFind (ldelPost q l msg) msg.tag (ldelBuf q l msg) (List.range q.n) = some i) :
+      DispL H T q l msg (deliverOrBuffer (ldelDec q l msg i) msg []).party
+        (deliverOrBuffer (ldelDec q l msg i) msg []).sent
+        (deliverOrBuffer (ldelDec q l msg i) msg []).out
+
+theorem action_cases (msg : Msg) :
+    (msg.action < rSend ∨ msg.action > lDeliver) ∨ msg.action = rSend ∨ msg.action = rEcho ∨
+    msg.action = rReady ∨ msg.action = rRequest ∨ msg.action = rAnswer ∨ msg.action = lRetrieve ∨
+    msg.action = lDeliver := by
+  simp only [rSend, rEcho, rReady, rRequest, rAnswer, lRetrieve, lDeliver]; omega
+
+theorem dispatchL_send {q : Party} (s0 : Sent) {l : Nat} {msg : Msg} (wf : WF q msg)
+    (ha : msg.action = rSend) :
+    ∃ q' s o, DispL H T q l msg q' s o ∧ dispatch H T q s0 l msg = ⟨q', s0 ++ s, o⟩ := by
+  rw [dispatch_send_eq H T wf ha]
+  by_cases hf : fHas q.send l msg.tag = true
+  · rw [if_pos hf]; exact ⟨_, _, _, .drop (fun _ => .ofSend ha hf), rfl⟩
+  · have hf0 : fHas q.send l msg.tag = false := by simpa using hf
+    rw [if_neg hf]
+    by_cases hl : msg.sender ≠ (l : Int)
+    · rw [if_pos hl]; exact ⟨_, _, _, .markSend wf ha hf0 (Or.inl hl), rfl⟩
+    · rw [if_neg hl]
+      simp only [ne_eq, not_not] at hl
+      cases hm : aGet q.mbar msg.tag with
+      | none => exact ⟨_, _, _, .echoNew wf ha hf0 hl hm, rfl⟩
+      | some mb =>
+        simp only []
+        by_cases hmb : mb ≠ msg.payload
+        · rw [if_pos hmb]; exact ⟨_, _, _, .markSend wf ha hf0 (Or.inr ⟨mb, hm, hmb⟩), rfl⟩
+        · rw [if_neg hmb]
+          simp only [ne_eq, not_not] at hmb
+          subst hmb
+          exact ⟨_, _, _, .echoOld wf ha hf0 hl hm, rfl⟩
+
+theorem dispatchL_echo {q : Party} (s0 : Sent) {l : Nat} {msg : Msg} (wf : WF q msg)
+    (ha : msg.action = rEcho) :
+    ∃ q' s o, DispL H T q l msg q' s o ∧ dispatch H T q s0 l msg = ⟨q', s0 ++ s, o⟩ := by
+  rw [dispatch_echo_eq H T wf ha]
+  by_cases hf : fHas q.echo l msg.tag = true
+  · rw [if_pos hf]; exact ⟨_, _, _, .drop (fun _ => .ofEcho ha hf), rfl⟩
+  · have hf0 : fHas q.echo l msg.tag = false := by simpa using hf
+    rw [if_neg hf]
+    by_cases hlen : ioLen msg.payload > 2 * ioLen (T msg.tag)
+    · rw [if_pos hlen]
+      exact ⟨_, _, _, .markEcho wf ha hf0 (by unfold LenOk; exact not_not.2 hlen), rfl⟩
+    · rw [if_neg hlen]
+      have hiff : ((cntInc q.eD (msg.tag, msg.payload)).2 = q.n - q.t ∧
+          (cntTouch q.rD (msg.tag, msg.payload)).2 ≤ q.t) ↔ EchoQ q msg := by
+        unfold EchoQ; rw [cntInc_snd, cntTouch_snd]
+      refine ⟨_, _, _, .echoCount wf ha hf0 hlen, ?_⟩
+      by_cases hq : EchoQ q msg
+      · rw [if_pos (hiff.2 hq), if_pos hq]; rfl
+      · rw [if_neg (fun h => hq (hiff.1 h)), if_neg hq]
+
+theorem readyTail_cases {q : Party} (s0 : Sent) {l : Nat} {msg : Msg} (wf : WF q msg)
+    (ha : msg.action = rReady) (hf0 : fHas q.ready l msg.tag = false)
+    (hlen : LenOk T msg.tag msg.payload) (hamp : ¬ Amp q msg)
+    (hr : cnt q.rD (msg.tag, msg.payload) + 1 = 2 * q.t + 1) :
+    ∃ q' s o, DispL H T q l msg q' s o ∧ readyTail H q s0 l msg = ⟨q', s0 ++ s, o⟩ := by
+  unfold readyTail
+  simp only []
+  have hdb : (readyPost q l msg).dbar = q.dbar := rfl
+  have hmb : (readyPost q l msg).mbar = q.mbar := rfl
+  rw [hdb]
+  cases hd : aGet q.dbar msg.tag with
+  | none =>
+    simp only [aGet_aSet_self, Option.getD_some]
+    cases hm : aGet q.mbar msg.tag with
+    | none =>
+      simp only [hmb, hm]
+      by_cases hfoo : (0 : Int) ≠ msg.payload
+      · rw [if_pos hfoo]
+        exact ⟨_, _, _, .readyReq wf ha hf0 hlen hamp hr _ (Or.inl ⟨hd, rfl⟩)
+          (Or.inl ⟨hm, Ne.symm hfoo⟩), rfl⟩
+      · rw [if_neg hfoo]
+        simp only [ne_eq, not_not] at hfoo
+        exact ⟨_, _, _, .readyDeliver wf ha hf0 hlen hamp hr _ (Or.inl ⟨hd, rfl⟩)
+          (Or.inl ⟨hm, hfoo.symm⟩), rfl⟩
+    | some mb =>
+      simp only [hmb, hm]
+      by_cases hfoo : H mb ≠ msg.payload
+      · rw [if_pos hfoo]
+        exact ⟨_, _, _, .readyReq wf ha hf0 hlen hamp hr _ (Or.inl ⟨hd, rfl⟩)
+          (Or.inr ⟨mb, hm, hfoo⟩), rfl⟩
+      · rw [if_neg hfoo]
+        simp only [ne_eq, not_not] at hfoo
+        exact ⟨_, _, _, .readyDeliver wf ha hf0 hlen hamp hr _ (Or.inl ⟨hd, rfl⟩)
+          (Or.inr ⟨mb, hm, hfoo⟩), rfl⟩
+  | some db =>
+    simp only []
+    by_cases hdb2 : db ≠ msg.payload
+    · rw [if_pos hdb2]
+      simp only []
+      refine ⟨_, _, _, .readyCount wf ha hf0 hlen (Or.inr (Or.inr ⟨db, hd, hdb2⟩)), ?_⟩
+      rw [if_neg hamp]
+    · rw [if_neg hdb2]
+      simp only [ne_eq, not_not] at hdb2
+      subst hdb2
+      simp only [hdb, hd, Option.getD_some]
+      cases hm : aGet q.mbar msg.tag with
+      | none =>
+        simp only [hmb, hm]
+        by_cases hfoo : (0 : Int) ≠ msg.payload
+        · rw [if_pos hfoo]
+          exact ⟨_, _, _, .readyReq wf ha hf0 hlen hamp hr _ (Or.inr ⟨hd, rfl⟩)
+            (Or.inl ⟨hm, Ne.symm hfoo⟩), rfl⟩
+        · rw [if_neg hfoo]
+          simp only [ne_eq, not_not] at hfoo
+          exact ⟨_, _, _, .readyDeliver wf ha hf0 hlen hamp hr _ (Or.inr ⟨hd, rfl⟩)
+            (Or.inl ⟨hm, hfoo.symm⟩), rfl⟩
+      | some mb =>
+        simp only [hmb, hm]
+        by_cases hfoo : H mb ≠ msg.payload
+        · rw [if_pos hfoo]
+          exact ⟨_, _, _, .readyReq wf ha hf0 hlen hamp hr _ (Or.inr ⟨hd, rfl⟩)
+            (Or.inr ⟨mb, hm, hfoo⟩), rfl⟩
+        · rw [if_neg hfoo]
+          simp only [ne_eq, not_not] at hfoo
+          exact ⟨_, _, _, .readyDeliver wf ha hf0 hlen hamp hr _ (Or.inr ⟨hd, rfl⟩)
+            (Or.inr ⟨mb, hm, hfoo⟩), rfl⟩
+
+theorem dispatchL_ready {q : Party} (s0 : Sent) {l : Nat} {msg : Msg} (wf : WF q msg)
+    (ha : msg.action = rReady) :
+    ∃ q' s o, DispL H T q l msg q' s o ∧ dispatch H T q s0 l msg = ⟨q', s0 ++ s, o⟩ := by
+  rw [dispatch_ready_eq H T wf ha]
+  by_cases hf : fHas q.ready l msg.tag = true
+  · rw [if_pos hf]; exact ⟨_, _, _, .drop (fun _ => .ofReady ha hf), rfl⟩
+  · have hf0 : fHas q.ready l msg.tag = false := by simpa using hf
+    rw [if_neg hf]
+    by_cases hlen : ioLen msg.payload > 2 * ioLen (T msg.tag)
+    · rw [if_pos hlen]
+      exact ⟨_, _, _, .markReady wf ha hf0 (by unfold LenOk; exact not_not.2 hlen), rfl⟩
+    · rw [if_neg hlen]
+      have hiff : (q.t > 0 ∧ (cntInc q.rD (msg.tag, msg.payload)).2 = q.t + 1 ∧
+          (cntTouch q.eD (msg.tag, msg.payload)).2 < q.n - q.t) ↔ Amp q msg := by
+        unfold Amp; rw [cntInc_snd, cntTouch_snd]
+      by_cases hq : Amp q msg
+      · rw [if_pos (hiff.2 hq)]
+        refine ⟨_, _, _, .readyCount wf ha hf0 hlen (Or.inl hq), ?_⟩
+        rw [if_pos hq]; rfl
+      · rw [if_neg (fun h => hq (hiff.1 h)), cntInc_snd]
+        by_cases hr : cnt q.rD (msg.tag, msg.payload) + 1 = 2 * q.t + 1
+        · rw [if_pos hr]
+          exact readyTail_cases H T s0 wf ha hf0 hlen hq hr
+        · rw [if_neg hr]
+          refine ⟨_, _, _, .readyCount wf ha hf0 hlen (Or.inr (Or.inl hr)), ?_⟩
+          rw [if_neg hq]
+
+theorem dispatchL_request {q : Party} (s0 : Sent) {l : Nat} {msg : Msg} (wf : WF q msg)
+    (ha : msg.action = rRequest) :
+    ∃ q' s o, DispL H T q l msg q' s o ∧ dispatch H T q s0 l msg = ⟨q', s0 ++ s, o⟩ := by
+  rw [dispatch_request_eq H T wf ha]
+  by_cases hf : fHas q.request l msg.tag = true
+  · rw [if_pos hf]; exact ⟨_, _, _, .drop (fun _ => .ofRequest ha hf), rfl⟩
+  · have hf0 : fHas q.request l msg.tag = false := by simpa using hf
+    rw [if_neg hf]
+    cases hm : aGet q.mbar msg.tag with
+    | none => exact ⟨_, _, _, .markReq wf ha hf0 hm, rfl⟩
+    | some mb => exact ⟨_, _, _, .reqAnswer wf ha hf0 mb hm, rfl⟩
+
+theorem dispatchL_answer {q : Party} (s0 : Sent) {l : Nat} {msg : Msg} (wf : WF q msg)
+    (ha : msg.action = rAnswer) :
+    ∃ q' s o, DispL H T q l msg q' s o ∧ dispatch H T q s0 l msg = ⟨q', s0 ++ s, o⟩ := by
+  rw [dispatch_answer_eq H T wf ha]
+  by_cases hf : fHas q.answer l msg.tag = true
+  · rw [if_pos hf]; exact ⟨_, _, _, .drop (fun _ => .ofAnswer ha hf), rfl⟩
+  · have hf0 : fHas q.answer l msg.tag = false := by simpa using hf
+    rw [if_neg hf]
+    cases hd : aGet q.dbar msg.tag with
+    | none => exact ⟨_, _, _, .markAns wf ha hf0 (Or.inl hd), rfl⟩
+    | some db =>
+      simp only []
+      by_cases haw : q.awaited.contains msg.tag = true
+      · simp only [haw, Bool.not_true, Bool.false_eq_true, if_false]
+        by_cases hh : H msg.payload = db
+        · rw [if_pos hh]
+          exact ⟨_, _, _, .answerDeliver wf ha hf0 db hd haw hh, rfl⟩
+        · rw [if_neg hh]
+          exact ⟨_, _, _, .markAns wf ha hf0 (Or.inr (Or.inr ⟨db, hd, hh⟩)), rfl⟩
+      · have haw0 : q.awaited.contains msg.tag = false := by simpa using haw
+        simp only [haw0, Bool.not_false, if_true]
+        exact ⟨_, _, _, .markAns wf ha hf0 (Or.inr (Or.inl haw0)), rfl⟩
+
+theorem dispatchL_retrieve {q : Party} (s0 : Sent) {l : Nat} {msg : Msg} (wf : WF q msg)
+    (ha : msg.action = lRetrieve) :
+    ∃ q' s o, DispL H T q l msg q' s o ∧ dispatch H T q s0 l msg = ⟨q', s0 ++ s, o⟩ := by
+  have hne : ∀ a : Int, a ≠ lRetrieve → msg.action ≠ a := by
+    intro a h1 h2; exact h1 (h2.symm.trans ha)
+  obtain ⟨h1, h2⟩ := wf_checks wf
+  have h3 : ¬(msg.action < rSend ∨ msg.action > lDeliver) := by rw [ha]; decide
+  unfold dispatch
+  simp only []
+  rw [if_neg h1, if_neg h2, if_neg h3, if_neg (hne rSend (by decide)), if_neg (hne rEcho (by decide)),
+    if_neg (hne rReady (by decide)), if_neg (hne rRequest (by decide)),
+    if_neg (hne rAnswer (by decide)), if_pos ha]
+  cases hm : aGet q.mbar msg.tag with
+  | none => exact ⟨_, _, _, .retrieve wf ha _ (Or.inl rfl), rfl⟩
+  | some mb =>
+    simp only []
+    by_cases hc : (q.fifo = true ∧ msg.seq < q.dS msg.sender.toNat) ∨ ¬q.fifo = true
+    · rw [if_pos hc]
+      refine ⟨_, _, _, .retrieve wf ha _ (Or.inr ⟨mb, rfl, hm, ?_⟩), rfl⟩
+      rcases hc with hc | hc
+      · exact Or.inl hc
+      · exact Or.inr (by simpa using hc)
+    · rw [if_neg hc]
+      exact ⟨_, _, _, .retrieve wf ha _ (Or.inl rfl), rfl⟩
+
+theorem dispatchL_ldeliver {q : Party} (s0 : Sent) {l : Nat} {msg : Msg} (wf : WF q msg)
+    (ha : msg.action = lDeliver) :
+    ∃ q' s o, DispL H T q l msg q' s o ∧ dispatch H T q s0 l msg = ⟨q', s0 ++ s, o⟩ := by
+  rw [dispatch_ldeliver_eq H T wf ha]
+  by_cases hf : fHas q.deliver l msg.tag = true
+  · rw [if_pos hf]; exact ⟨_, _, _, .drop (fun _ => .ofOther (Or.inr (Or.inr ha))), rfl⟩
+  · have hf0 : fHas q.deliver l msg.tag = false := by simpa using hf
+    rw [if_neg hf]
+    by_cases hr : fHas q.retrieve l msg.tag = true
+    · simp only [hr, Bool.not_true, Bool.false_eq_true, if_false]
+      by_cases hn : deliverNum (ldelPost q l msg) msg.tag < q.n - q.t
+      · rw [if_pos hn]; exact ⟨_, _, _, .ldelMark wf ha hf0 hr, rfl⟩
+      · rw [if_neg hn]
+        cases hi : agreeFind (ldelPost q l msg) msg.tag (ldelBuf q l msg) (List.range q.n) with
+        | none => exact ⟨_, _, _, .ldelMark wf ha hf0 hr, rfl⟩
+        | some i => exact ⟨_, _, _, .ldelDeliver wf ha hf0 hr i hi, rfl⟩
+    · have hr0 : fHas q.retrieve l msg.tag = false := by simpa using hr
+      simp only [hr0, Bool.not_false, if_true]
+      exact ⟨_, _, _, .drop (fun _ => .ofOther (Or.inr (Or.inr ha))), rfl⟩
+
+/-- every call of `dispatch` is one of the cases of `DispL` -/
+theorem dispatchL (q : Party) (s0 : Sent) (l : Nat) (msg : Msg) :
+    ∃ q' s o, DispL H T q l msg q' s o ∧ dispatch H T q s0 l msg = ⟨q', s0 ++ s, o⟩ := by
+  by_cases wf : WF q msg
+  · rcases action_cases msg with h | h | h | h | h | h | h | h
+    · rw [dispatch_badact H T h]; exact ⟨_, _, _, .drop (fun _ => .ofOther (Or.inl h)), rfl⟩
+    · exact dispatchL_send H T s0 wf h
+    · exact dispatchL_echo H T s0 wf h
+    · exact dispatchL_ready H T s0 wf h
+    · exact dispatchL_request H T s0 wf h
+    · exact dispatchL_answer H T s0 wf h
+    · exact dispatchL_retrieve H T s0 wf h
+    · exact dispatchL_ldeliver H T s0 wf h
+  · rw [dispatch_bad H T wf]; exact ⟨_, _, _, .drop (fun h => absurd h wf), rfl⟩
 
 end Tmcg.Rbc
